@@ -262,6 +262,15 @@ def rule_walk_reaches_every_ephemeral(A, R, rule, walkers=None):
                 ok = bool(heads)
                 why = "the pushed key is not bound by a loop of the walk itself"
                 pblocks = set(x["bb"] for x in pushes)
+                # a visited-set test on the upstream itself (`if queued.insert(up) { push }`) stands for the push: an upstream
+                # that is not pushed there was pushed before
+                psyms = set(x["key"][0] for x in pushes)
+                for k_, x in I.rec.facts.items():
+                    if k_[0] == "set_op" and x["fn"] == fn and x["op"] in ("insert", "contains") and x["target"][0] == "local" \
+                            and x["elem"][0] == "key" and x["elem"][1] in psyms:
+                        pblocks.add(x["bb"])
+                    elif k_[0] == "mark" and x["fn"] == fn and x["key"][0] in psyms:
+                        pblocks.add(x["bb"])
                 for head in heads:
                     t = body.term(head)
                     if t["k"] != "call" or t["t"] < 0:
